@@ -23,6 +23,9 @@ def run(run_, tier):
             run_.function(f"mici.systems.{c}.{m}")
     run_.replay_for("", lambda w: {"script": "c05_derivatives.py", "args": [json.dumps(w or {})], "timeout": 900})
     n = symla_systems.run_cases(run_, "c05_cases")
+    # Engine D: the kinetic term of the Euclidean-family systems for ALL dimensions and every metric object satisfying the matrix contract
+    from . import generic_systems
+    generic_systems.run_generic_systems(run_, keep=lambda oid: any(t in oid for t in ("dh2_dmom", "h2-is-half", "dh2_dpos", "metric-inverse")))
     # SoftAbsRiemannianMetricSystem = generic RiemannianMetricSystem methods (proved above for scalar / diagonal / Cholesky / dense metrics) applied to the
     # SoftAbs metric class: its gradient contracts (symbolic softabs_coeff, distinct and repeated eigenvalues) are C11's obligations, imported here
     from . import c09, c11
